@@ -1,8 +1,95 @@
 (* C05 — mh_sha1 / mh_sha256 equal the multi-hash definition for any update segmentation.
-   This file contains only statements, each closed by an already-proved lemma. *)
+   This file contains only statements, each closed by an already-proved lemma.
+
+   L0: Spec/MH.v  mh_sha1 / mh_sha256 (SHA-style padding to 1024-byte blocks, 32-bit words dealt
+       round-robin to 16 segments, each an unpadded SHA chain, the 16 chaining values hashed once more).
+   L1: Model/MhCtx.v  mh1_* / mh256_* : the context layer of mh_sha1_update_base.c /
+       mh_sha1_finalize_base.c (three-branch carry logic, uint32 wrap of len + partial_len, one- or
+       two-block tail) over the interleaved block function on the flat [word][segment] array. *)
 From Coq Require Import NArith List Arith Lia.
-From ISAL Require Import Base.Words Base.ListUtil Spec.MD Spec.SHA1 Spec.SHA256 Spec.MH Model.MhCtx.
+From ISAL Require Import Base.Words Base.ListUtil Spec.MD Spec.SHA1 Spec.SHA256 Spec.MH Model.MhCtx
+  Proofs.MhFacts Proofs.MhInst.
 Import ListNotations.
 
-Example C05_nonvacuous_placeholder : mh1_run [[1;2;3]%N; []; [4]%N] = mh_sha1 [1;2;3;4]%N.
-Proof. vm_compute. reflexivity. Qed.
+(* (a) every stream shorter than 2^32 bytes, every partition of it into update calls (any
+   number of calls, any lengths including 0): init, the updates, finalize give the multi-hash
+   definition of the whole stream *)
+Theorem C05_mh_update_segmentation : forall segs : list (list N),
+  (N.of_nat (length (concat segs)) < 2 ^ 32)%N ->
+  mh1_finalize (fold_left mh1_update segs mh1_init) = mh_sha1 (concat segs) /\
+  mh256_finalize (fold_left mh256_update segs mh256_init) = mh_sha256 (concat segs).
+Proof. exact c05_update_segmentation. Qed.
+Print Assumptions C05_mh_update_segmentation.
+
+(* (b) hence two partitions of the same stream give the same digests *)
+Theorem C05_split_independent : forall segsA segsB : list (list N),
+  concat segsA = concat segsB -> (N.of_nat (length (concat segsA)) < 2 ^ 32)%N ->
+  mh1_run segsA = mh1_run segsB /\ mh256_run segsA = mh256_run segsB.
+Proof. exact mh_run_split_independent. Qed.
+Print Assumptions C05_split_independent.
+
+(* (c) the representation invariant behind (a), which is what the white-box correspondence
+   compares after every update call: total_length is exact, the first (total mod 1024) bytes of
+   the partial buffer are the unhashed tail of the stream, the interim digests are the block
+   function folded over the first floor(total / 1024) blocks *)
+Theorem C05_ctx_invariant : forall segs : list (list N),
+  (N.of_nat (length (concat segs)) < 2 ^ 32)%N ->
+  let stream := concat segs in
+  let nblk := length stream / 1024 in
+  forall c st0 blockf,
+    (c = fold_left mh1_update segs mh1_init /\ st0 = mh_flat_iv sha1_iv /\ blockf = mh_sha1_block) \/
+    (c = fold_left mh256_update segs mh256_init /\ st0 = mh_flat_iv sha256_iv /\ blockf = mh_sha256_block) ->
+    mc_total c = N.of_nat (length stream) /\
+    length (mc_partial c) = 1024 /\
+    firstn (length stream mod 1024) (mc_partial c) = skipn (nblk * 1024) stream /\
+    mc_state c = fold_left blockf (chunks 1024 (firstn (nblk * 1024) stream)) st0.
+Proof. exact c05_ctx_invariant. Qed.
+Print Assumptions C05_ctx_invariant.
+
+(* (d) the interleaved block function.  Spec/MH.v already DEFINES a block update as 16
+   independent compressions (mh_block_update = map compress (combine interim (mh_segments block)));
+   what is proved here is the layout: the model's block function, which like the C indexes the flat
+   uint32_t digests[word][segment] array and the block's 256 words ww[16 i + s], equals that
+   definition through the memory-order flattening mh_interim_words *)
+Theorem C05_block_is_16_segments :
+  (forall I blk, mh_wf 5 I -> length blk = 1024 ->
+     mh_sha1_block (mh_interim_words sha1_algo I) blk
+     = mh_interim_words sha1_algo (mh_block_update sha1_algo I blk)) /\
+  (forall I blk, mh_wf 8 I -> length blk = 1024 ->
+     mh_sha256_block (mh_interim_words sha256_algo I) blk
+     = mh_interim_words sha256_algo (mh_block_update sha256_algo I blk)).
+Proof. exact c05_block_is_16_segments. Qed.
+Print Assumptions C05_block_is_16_segments.
+
+(* (e) "32-bit words dealt round-robin": segment s of a 1024-byte block is the concatenation of
+   its 4-byte words s, 16 + s, 32 + s, ..., 240 + s *)
+Theorem C05_segments_are_dealt_words : forall blk : list N, length blk = 1024 ->
+  mh_segments blk
+  = map (fun s => flat_map (fun i => firstn 4 (skipn (4 * (16 * i + s)) blk)) (seq 0 16)) (seq 0 16).
+Proof. exact mh_segments_dealt. Qed.
+Print Assumptions C05_segments_are_dealt_words.
+
+(* (f) "each hashed without further padding": the 16 chaining values after the whole padded
+   stream are 16 independent plain compression chains from the standard IV, chain s over the
+   s-th segment block of every 1024-byte block *)
+Theorem C05_16_independent_chains : forall msg : list N,
+  (mh_chain sha1_algo msg
+   = map (fun s => fold_left sha1_compress (map (fun b => nth s (mh_segments b) []) (mh_blocks msg)) sha1_iv) (seq 0 16))
+  /\
+  (mh_chain sha256_algo msg
+   = map (fun s => fold_left sha256_compress (map (fun b => nth s (mh_segments b) []) (mh_blocks msg)) sha256_iv) (seq 0 16)).
+Proof. exact mh_chain_16. Qed.
+Print Assumptions C05_16_independent_chains.
+
+(* non-vacuity: 1030 pattern bytes fed as 1000 + 24 (completing the partial block exactly) + 0 + 6
+   meet the hypothesis and give the digests the built library returns for this input *)
+Example C05_nonvacuous :
+  let stream := mh_pat_from 1030 3 in
+  let segs := [firstn 1000 stream; firstn 24 (skipn 1000 stream); []; skipn 1024 stream] in
+  concat segs = stream /\ (N.of_nat (length (concat segs)) < 2 ^ 32)%N /\
+  mh1_finalize (fold_left mh1_update segs mh1_init)
+    = [0x86711483; 0x1075c6b4; 0x90de19b8; 0xe171bf1d; 0x747f6369]%N /\
+  mh_sha1 stream = [0x86711483; 0x1075c6b4; 0x90de19b8; 0xe171bf1d; 0x747f6369]%N /\
+  mh256_finalize (fold_left mh256_update segs mh256_init)
+    = [0xb9385253; 0x9adebf85; 0xb290b1ee; 0xcb0780ad; 0x547f898f; 0xb9ac8d22; 0x736bae3e; 0xa5035f2f]%N.
+Proof. vm_compute. repeat split; reflexivity. Qed.
